@@ -67,6 +67,8 @@ def run_one(patch, budget, props=None, tier='quick'):
                 'signatures': sigs,
                 'wall_s': round(time.time() - t0, 1),
                 'tail': r.stdout[-600:] if r.returncode not in (0, 1) else '',
+                'summary': ' '.join(re.findall(r'^\[dst\] \S+ \w+: (.*)$',
+                                               r.stdout, re.M))[:200],
             }
     finally:
         shutil.rmtree(wd, ignore_errors=True)
